@@ -63,11 +63,19 @@ def main():
             print("HARNESS: norminette imported from %s, not from %s" % (norminette.__file__, REPO))
             return 2
         mod = importlib.import_module(MODULES[pid])
+        from nv import core
+        core.CURRENT_PID = pid
         if args.replay:
             with open(args.replay) as f:
                 rec = json.load(f)
-            found = mod.replay(pid, rec["case"])
-            from nv import core
+            if rec["case"].get("hard_hang"):
+                # the recorded input made a worker hang below the reach of Python-level watchdogs: replay it in a child under a hard limit
+                from nv import adapters
+                c = rec["case"]
+                how = core.guarded(lambda: adapters.analyse(c["name"], c["text"]), core.HARD_S)
+                found = [(rec.get("key", "%s|HANG|hard-watchdog" % pid), "no answer within %d s" % core.HARD_S)] if how == "hang" else []
+            else:
+                found = mod.replay(pid, rec["case"])
             known = core.load_known(pid)
             bad = 0
             for key, what in found:
